@@ -45,6 +45,8 @@ enum GOp {
     AddEdge(usize, usize),
     GetEdge(usize, usize),
     EdgeAttrAdd(usize, usize, String, Value),
+    /// `add_edge`, then an attribute through the reference `add_edge` RETURNED (new or existing edge): two model operations
+    AddEdgeRefAttr(usize, usize, String, Value),
     NodeAttrAdd(usize, String, Value),
     /// attribute whose value is (a reference to) the syntax node with this pre-order index of `SYN_SRC`'s tree
     NodeAttrAddSyn(usize, String, usize),
@@ -62,6 +64,7 @@ fn gop_sexp(op: &GOp) -> Sexp {
     match op {
         AddNode => sexp::tagged("add-node", vec![]),
         AddEdge(s, t) => sexp::tagged("add-edge", vec![sexp::nat(*s), sexp::nat(*t)]),
+        AddEdgeRefAttr(s, t, _, _) => sexp::tagged("add-edge", vec![sexp::nat(*s), sexp::nat(*t)]),
         GetEdge(s, t) => sexp::tagged("get-edge", vec![sexp::nat(*s), sexp::nat(*t)]),
         EdgeAttrAdd(s, t, k, v) => sexp::tagged("edge-attr-add", vec![sexp::nat(*s), sexp::nat(*t), sexp::st(k), value_sexp(v, &no_syn)]),
         NodeAttrAdd(n, k, v) => sexp::tagged("node-attr-add", vec![sexp::nat(*n), sexp::st(k), value_sexp(v, &no_syn)]),
@@ -86,7 +89,7 @@ fn gen_gops(r: &mut Rng, len: usize) -> Vec<GOp> {
         let sink = r.below(n + 3);
         let key = r.pick(KEYS).to_string();
         let val = if r.chance(2, 3) { r.pick(&pool).clone() } else { gen_value(r, 2, n) };
-        match r.below(20) {
+        match r.below(22) {
             0 | 1 => {
                 if n < 14 {
                     ops.push(GOp::AddNode);
@@ -118,6 +121,7 @@ fn gen_gops(r: &mut Rng, len: usize) -> Vec<GOp> {
                     ops.push(GOp::NodeAttrAdd(node, key, val))
                 }
             }
+            20 | 21 => ops.push(GOp::AddEdgeRefAttr(node, sink, key, val)),
             14 => ops.push(GOp::NodeAttrGet(node, key)),
             15 => ops.push(GOp::NodeAttrs(node)),
             16 => ops.push(GOp::IterNodes),
@@ -168,6 +172,17 @@ fn run_gops(ops: &[GOp]) -> (Vec<Sexp>, Sexp, usize) {
                 Ok(_) => t("new"),
                 Err(_) => t("existing"),
             },
+            AddEdgeRefAttr(s, k, key, v) => {
+                let (first, e) = match g[refs[*s]].add_edge(gref(*k)) {
+                    Ok(e) => (t("new"), e),
+                    Err(e) => (t("existing"), e),
+                };
+                obs.push(first);
+                match e.attributes.add(Identifier::from(key.as_str()), v.clone()) {
+                    Ok(()) => t("ok"),
+                    Err(_) => t("conflict"),
+                }
+            }
             GetEdge(s, k) => match g[refs[*s]].get_edge(gref(*k)) {
                 None => t("none"),
                 Some(e) => sexp::tagged("some", vec![attrs_sexp_syn(&e.attributes, &|s| info.index_of(&g[*s]))]),
@@ -346,7 +361,10 @@ pub fn run(rep: &mut Report, tier: &str, seed: u64) {
         let mut r = root.fork(i as u64);
         let l = if i % 4 == 0 { len } else { r.range(5, len) };
         let ops = gen_gops(&mut r, l);
-        let req = sexp::tagged("ops-graph", ops.iter().map(gop_sexp).collect());
+        let req = sexp::tagged("ops-graph", ops.iter().flat_map(|op| match op {
+            GOp::AddEdgeRefAttr(s, k, key, v) => vec![gop_sexp(&GOp::AddEdge(*s, *k)), gop_sexp(&GOp::EdgeAttrAdd(*s, *k, key.clone(), v.clone()))],
+            other => vec![gop_sexp(other)],
+        }).collect());
         let (obs, dump, max_edges) = run_gops(&ops);
         let expected = sexp::list(vec![sexp::list(obs), dump]).to_text();
         let got = drv.ask_text(&req);
